@@ -35,7 +35,7 @@ def run_cases(ctx, cases, tag, shards=4, timeout=900):
             c["deadline"] = dl
             c["reps"] = 1
             again.append(c)
-        new = _run_cases(ctx, again, "%s_retry%d" % (tag, attempt), 2, timeout)
+        new = _run_cases(ctx, again, "%s_retry%d" % (tag, attempt), 4, max(timeout, len(again) * dl // 4000 + 180))
         if len(new) != len(slow):
             raise vlib.Inconclusive("retry returned %d observations for %d runs" % (len(new), len(slow)))
         for (i, o), n in zip(slow, new):
